@@ -36,10 +36,11 @@ def menu_for(n, remaining):
 
 
 class EnvExplorer:
-    def __init__(self, data: bytes, drive, *, stateful=True, max_execs=400_000, inspect=True):
+    def __init__(self, data: bytes, drive, *, stateful=True, max_execs=400_000, inspect=True, allow_close=False):
         """drive(sock, on_item) -> observation (any comparable value); must create a fresh generator."""
         self.data = data
         self.drive = drive
+        self.allow_close = allow_close  # crash points: the peer may close at any choice point
         self.stateful = stateful
         self.inspect = inspect and stateful
         self.max_execs = max_execs
@@ -63,6 +64,8 @@ class EnvExplorer:
         def decide(n, remaining, key, sock):
             i = len(ex.choices)
             menu = menu_for(n, remaining)
+            if self.allow_close and remaining > 0:
+                menu = menu + [0]
             if i < len(prefix):
                 ci = prefix[i]
                 if ci >= len(menu):
@@ -74,7 +77,7 @@ class EnvExplorer:
                     if key is None:
                         self.uninspectable = True
                     else:
-                        k = (sock.delivered, n_items[0], yielded.digest(), n, key)
+                        k = (sock.delivered, sock.closed, n_items[0], yielded.digest(), n, key)
                         if k in self.seen:
                             raise Pruned()
                         self.seen.add(k)
